@@ -20,6 +20,7 @@ from collections import OrderedDict, defaultdict
 from collections.abc import Callable, Iterable, Iterator
 from itertools import chain, takewhile
 from json import JSONDecodeError
+from pickle import PicklingError
 from traceback import FrameSummary
 from typing import (
     Any,
@@ -2151,7 +2152,7 @@ class Scheduler:
                 error_value = ErrorValue(error, error_traceback or Traceback.from_error(error))
                 try:
                     error_hash = self.backend.record_value(error_value)
-                except (TypeError, AttributeError):
+                except (TypeError, AttributeError, PicklingError):
                     # Some errors cannot be serialized so record them as generic Exceptions.
                     error2 = Exception(repr(error))
                     error_value = ErrorValue(
